@@ -1437,7 +1437,7 @@ def c20t_run(chk, pid="C20T", max_hist=200):
                 return False
             if constraint_facts(hh, ra)[0] != 0:
                 return False
-            ex = hexact_ids(h)
+            ex = exact_ids(hh)
             return observable(hh, ra, ex) != observable(bb, rb, ex)
         small = shrink_history(a, f) if f(a) else a
         msg = "a tracker with a constraints table that no considered pair violates behaves differently from one without constraints"
